@@ -67,6 +67,8 @@ const (
 	cBase64Tail
 	cChunkBoundary
 	cDirectCompare
+	cStarOverlap
+	cProbeSkipped
 	numCounters
 )
 
@@ -98,6 +100,7 @@ var counterNames = [...]string{
 	cEmptyMsg: "reach.empty_message", cCompressedMsg: "reach.compressed_message", cWSCloseFrame: "reach.ws_close_frame",
 	cWSCutNoClose: "reach.ws_cut_without_close", cTrailerChecked: "reach.final_status_checked", cBase64Tail: "reach.base64_tail_nonzero",
 	cChunkBoundary: "reach.httpbody_chunk_boundary", cDirectCompare: "reach.direct_backend_comparison",
+	cStarOverlap: "reach.kind_star_overlap_unpredicted", cProbeSkipped: "reach.probe_not_judged_after_unpredicted_verdict",
 }
 
 func counterName(i int) string {
